@@ -72,7 +72,11 @@ use std::{
         Arc,
     },
 };
+#[cfg_attr(leptos_verif, allow(unused_imports))]
 use wasm_bindgen::JsCast;
+#[cfg(leptos_verif)]
+use leptos::tachys::renderer::types::Element as HtmlHeadElement;
+#[cfg(not(leptos_verif))]
 use web_sys::HtmlHeadElement;
 
 mod body;
